@@ -29,6 +29,7 @@ var ruleGroups = map[string]func(*Ctx){
 	"G1": rulesLife, "G3": rulesLife, "G4": rulesLife, "G5": rulesLife, "G6": rulesLife,
 	"X1": rulesTransport, "X2": rulesTransport, "X3": rulesTransport, "W1": rulesTransport,
 	"G9": rulesExtra3, "P5": rulesExtra3, "M4": rulesExtra3, "M5": rulesExtra3, "X4": rulesExtra3, "B6": rulesExtra3, "G8": rulesExtra3,
+	"L4": rulesExtra4, "M6": rulesExtra4, "I8": rulesExtra4, "I9": rulesExtra4, "T6": rulesExtra4, "L3": rulesExtra4, "E6": rulesExtra4, "X5": rulesExtra4, "X6": rulesExtra4,
 	"S1": rulesExtra2, "G7": rulesExtra2, "Q5": rulesExtra2, "T5": rulesExtra2, "I7": rulesExtra2,
 	"I6": rulesExtra, "T2": rulesExtra, "P4": rulesExtra, "B4": rulesExtra, "B5": rulesExtra, "T3": rulesExtra, "T4": rulesExtra,
 	"M1": rulesAddr, "M2": rulesAddr, "M3": rulesAddr, "D2": rulesAddr,
@@ -84,11 +85,11 @@ var commonAssumptions = []string{
 }
 
 var propSpecs = map[string]*propSpec{
-	"C01": {ID: "C01", Rules: rr("I1", "I2", "I3", "I4", "I6"), Controls: []string{"I4", "I2"},
-		Explanation: "Repo-side necessary conditions of order-independence: every index implementation computes its view from the log's total order only (I1: Values(), never GetEntries/Heads/Iterator/the incremental argument), the last-writer-wins scan is coherent (I2: scan direction vs first-seen guard; tested, marked and written key identical by normal form), store and index agree on the opcode table (I3), and every route that changes the log (write path, three merge sites) refreshes the view before reporting success (I4). The index interprets the whole total order and nothing it remembers between calls decides what is interpreted (I6).",
+	"C01": {ID: "C01", Rules: rr("I1", "I2", "I3", "I4", "I6", "I8", "I9"), Controls: []string{"I4", "I2", "I8", "I9"},
+		Explanation: "Repo-side necessary conditions of order-independence: every index implementation computes its view from the log's total order only (I1: Values(), never GetEntries/Heads/Iterator/the incremental argument), the last-writer-wins scan is coherent (I2: scan direction vs first-seen guard; tested, marked and written key identical by normal form), store and index agree on the opcode table (I3), and every route that changes the log (write path, three merge sites) refreshes the view before reporting success (I4). The index interprets the whole total order and nothing it remembers between calls decides what is interpreted (I6). View maps are keyed by the key as written, or hold a collection per computed key (I8); JSON decode targets are allocated for the decode, because everything is encoded with omitempty (I9).",
 		NotDecided:  "that Join is set union and Values() a deterministic total order (CRDT inside go-ipfs-log); actual delivery orders."},
-	"C02": {ID: "C02", Rules: cat(rr("W1", "L2", "P3", "Q4"), []ruleRef{only("P2", "_localHeads", "Get(", "anchor")}), Controls: []string{"P3"},
-		Explanation: "Wiring needed for eventual delivery: a peer joining the topic reaches the head exchange, which sends the cached heads under the store's own address on its success path (W1); the key the write path persists is the one the exchange and the load path read (P2); fetched entries' next links are queued (L2); and the persisted local head covers every acknowledged write because Append and the persisting Put share a critical section (P3). The replicator sets no fetch timeout (Q4: under DF7 a timeout silently truncates ancestry) and the locally written head is in the exchanged message on every path (W1 selection test).",
+	"C02": {ID: "C02", Rules: cat(rr("W1", "L2", "P3", "Q4", "T6", "L3"), []ruleRef{only("P2", "_localHeads", "Get(", "anchor")}), Controls: []string{"P3", "T6", "L3"},
+		Explanation: "Wiring needed for eventual delivery: a peer joining the topic reaches the head exchange, which sends the cached heads under the store's own address on its success path (W1); the key the write path persists is the one the exchange and the load path read (P2); fetched entries' next links are queued (L2); and the persisted local head covers every acknowledged write because Append and the persisting Put share a critical section (P3). The replicator sets no fetch timeout (Q4: under DF7 a timeout silently truncates ancestry) and the locally written head is in the exchanged message on every path (W1 selection test). Whether a received head is handed to the replicator does not depend on an insert-only or unverified memo (T6); the replicator's buffer is read out and reset inside one critical section, counting the locks every caller holds (L3).",
 		NotDecided:  "liveness itself: fault sequences, retries, pubsub behaviour, fetchability of blocks."},
 	"C03": {ID: "C03", Rules: rr("A1", "A2", "A3", "A4", "T2"), Controls: []string{"A1"},
 		Explanation: "For all access-controller implementations: every accepting path of CanAppend passes a successful write-list membership comparison and an identity verification whose result is used (A1); that verification is not a constant accept (A2, derived from the dependency); the signing key is bound to the named identity (A3); every log is constructed with the store's controller and database id, is mutated only through Append/Join, and the controller and store type come from the manifest at the address root (A4). Join is always called on the store's own log with the fetched log as argument, and the oplog field is only assigned a fresh NewLog (T2).",
@@ -96,14 +97,14 @@ var propSpecs = map[string]*propSpec{
 	"C04": {ID: "C04", Rules: rr("T1", "A4", "T2", "T3", "T4", "T5"), Controls: []string{"T1"},
 		Explanation: "Interprocedural field-based taint from every read of a decoded MessageExchangeHeads.Heads to log constructors, entry maps and Join: no entry object received from the network reaches a log except through its content address (T1); logs are only built with the store's access controller and id and only mutated through Append/Join (A4). Join direction and oplog provenance (T2); fetched entries with a foreign log id are refused (T3); only heads accepted by the access controller are handed to the replicator (T4); the claimed address is compared as a whole with the recomputed one (T5).",
 		NotDecided:  "the dependency's signature check and log-id filter inside Join; hash collision resistance."},
-	"C05": {ID: "C05", Rules: cat(rr("P1", "P4", "P5"), []ruleRef{except("P2", "snapshot", "queue")}), Controls: []string{"P1"},
-		Explanation: "Ordering of persistence effects on every path: Append → cache Put (error tested, failing branch leaves) → successful return; Join → Put of merged heads (error tested) → EventReplicated (P1); the keys written by those paths and the manifest marker are read back under the same names by the load path, the exchange and the local-presence test, and both head sets read by the load path feed the fetch (P2). No cached head key is deleted outside Drop (P4).",
+	"C05": {ID: "C05", Rules: cat(rr("P1", "P4", "P5", "L4"), []ruleRef{except("P2", "snapshot", "queue")}), Controls: []string{"P1"},
+		Explanation: "Ordering of persistence effects on every path: Append → cache Put (error tested, failing branch leaves) → successful return; Join → Put of merged heads (error tested) → EventReplicated (P1); the keys written by those paths and the manifest marker are read back under the same names by the load path, the exchange and the local-presence test, and both head sets read by the load path feed the fetch (P2). No cached head key is deleted outside Drop (P4). A history fetched at load that is refused as a whole is merged entry by entry, so one refused ancestor does not cost the entries reported as replicated before the restart (L4).",
 		NotDecided:  "durability of leveldb/IPFS writes; the state recovered from each crash prefix (needs CRDT semantics)."},
-	"C06": {ID: "C06", Rules: []ruleRef{only("I1", "kvstore"), only("I2", "kvstore"), only("I3", "kvstore"), {Rule: "I4"}, only("I6", "kvstore")}, Controls: []string{"I2"},
-		Explanation: "Key-value index: view computed from Values() only (I1); descending scan with a first-seen guard whose tested, marked and written key are the same expression, PUT stores and DEL deletes (I2, I3); every log change refreshes the view (I4).",
+	"C06": {ID: "C06", Rules: []ruleRef{only("I1", "kvstore"), only("I2", "kvstore"), only("I3", "kvstore"), {Rule: "I4"}, only("I6", "kvstore"), only("I8", "kvstore"), only("I9", "kvstore", "stores/operation")}, Controls: []string{"I2"},
+		Explanation: "Key-value index: view computed from Values() only (I1); descending scan with a first-seen guard whose tested, marked and written key are the same expression, PUT stores and DEL deletes (I2, I3); every log change refreshes the view (I4). View writes keyed verbatim (I8); operations are decoded into fresh values (I9).",
 		NotDecided:  "that the total order extends happens-before (dependency clocks)."},
-	"C07": {ID: "C07", Rules: []ruleRef{only("I1", "documentstore"), only("I2", "documentstore"), only("I3", "documentstore"), {Rule: "I4"}, {Rule: "D2"}, only("I6", "documentstore")}, Controls: []string{"I2"},
-		Explanation: "Document index: as C06 for PUT, DEL and every member of PUTALL (I1–I3), view refreshed on every change (I4); Delete reaches the append only through a presence test whose absent branch leaves with an error (D2).",
+	"C07": {ID: "C07", Rules: []ruleRef{only("I1", "documentstore"), only("I2", "documentstore"), only("I3", "documentstore"), {Rule: "I4"}, {Rule: "D2"}, only("I6", "documentstore"), only("I8", "documentstore"), only("I9", "documentstore", "stores/operation")}, Controls: []string{"I2"},
+		Explanation: "Document index: as C06 for PUT, DEL and every member of PUTALL (I1–I3), view refreshed on every change (I4); Delete reaches the append only through a presence test whose absent branch leaves with an error (D2). View writes keyed verbatim (I8); operations are decoded into fresh values (I9).",
 		NotDecided:  "Get's matching options and Query (string semantics, caller predicates)."},
 	"C08": {ID: "C08", Rules: []ruleRef{only("I1", "eventlogstore", "basestore"), {Rule: "I5"}, only("I6", "eventlogstore", "basestore"), {Rule: "I7"}},
 		Explanation: "Event log listing is the log's total order (I1 for the event and base index); the slice the query reverses in place is freshly built by the installed index on every call (I5). The event-log store selects windows from the index listing only (I7); the event index interprets the whole order (I6).",
@@ -111,26 +112,26 @@ var propSpecs = map[string]*propSpec{
 	"C09": {ID: "C09", Rules: rr("B1", "B2", "B4", "B5", "B6"), Controls: []string{"B1"},
 		Explanation: "Every subscription to store-scoped event types on a bus that may be the instance-wide one either filters by the event's database address before any effect, or is made on a bus private to the store (B1); both receive paths route a heads message by the address it names before Sync (B2). Handler goroutines capture only per-iteration state (B4); each store gets the cache loaded for its own address on every path (B5); nothing written back into the caller's options chains per-store hooks (B6).",
 		NotDecided:  "interference through the shared IPFS node or the pubsub router."},
-	"C10": {ID: "C10", Rules: []ruleRef{{Rule: "L1"}, only("Q1", "rejected-join"), {Rule: "I4"}, {Rule: "T1"}, {Rule: "T2"}, {Rule: "T4"}}, Controls: []string{"L1", "T1"},
-		Explanation: "A failing Join stays inside the loop over fetched logs (L1); the task table's terminal state either does not block re-queuing, or is collected at load-end, or every fetch asks for exactly one entry so that a rejected log never holds a valid one (Q1); every Join is called on the store's own log, so each fetched log is verified and rejected on its own (T2); what is fetched under a hash is the content of that hash, never an announced object (T1); the view is refreshed after partial batches (I4).",
+	"C10": {ID: "C10", Rules: []ruleRef{{Rule: "L1"}, only("Q1", "rejected-join"), {Rule: "I4"}, {Rule: "T1"}, {Rule: "T2"}, {Rule: "T4"}, {Rule: "T6"}, {Rule: "L4"}}, Controls: []string{"L1", "T1", "T6"},
+		Explanation: "A failing Join stays inside the loop over fetched logs (L1); the task table's terminal state either does not block re-queuing, or is collected at load-end, or every fetch asks for exactly one entry so that a rejected log never holds a valid one (Q1); every Join is called on the store's own log, so each fetched log is verified and rejected on its own (T2); what is fetched under a hash is the content of that hash, never an announced object (T1); the view is refreshed after partial batches (I4). Memo discipline in Sync: marks only after verification, releasable, released on every path (T6); a multi-entry history refused at load is merged entry by entry (L4).",
 		NotDecided:  "which entries the dependency rejects."},
 	"C11": {ID: "C11", Rules: []ruleRef{only("Q1", "failed-fetch", "tasks[]"), {Rule: "Q2"}, {Rule: "G2"}, {Rule: "Q3"}, {Rule: "Q5"}, only("G7", "replicator"), {Rule: "S1"}},
 		Explanation: "Task states are not absorbing while blocking (Q1); a worker whose slot wait fails removes a queued item and its task entry (Q2); goroutines draining a fetch-progress channel have no exit on ctx.Done() while the fetcher can still send (G2, with DF4 derived from the dependency). An empty fetch is a failed fetch (Q3, DF7); the idle counter is balanced on every worker path (Q5); fetch slots are released on every path (G7); no head is skipped on the strength of state recorded when an earlier request merely started (S1).",
 		NotDecided:  "behaviour of IPFS fetches under cancellation."},
-	"C12": {ID: "C12", Rules: []ruleRef{{Rule: "N2"}, {Rule: "N4"}, only("E3", "pubsub", "PayloadEmitter"), {Rule: "T1"}, {Rule: "T4"}, only("N1", "directchannel"), except("G7", "replicator")}, Controls: []string{"N4", "N2", "T1"},
-		Explanation: "Allocation sizes decoded from a stream are bounded on both sides before use (N2, N1 on the frame-length conversion); every pointer decoded from a message or fetched entry (heads elements, GetIdentity() results, announced clocks) is nil-tested as a pointer before dereference, including through interface boxing (N4); the payload emitter's value type matches (E3); received entries cannot alter a log except by content address (T1). A received entry is re-encoded only after its clock and identity signatures were found present (N4d, DF8); only accepted heads reach the replicator (T4); frame slots are released on every path (G7).",
+	"C12": {ID: "C12", Rules: []ruleRef{{Rule: "N2"}, {Rule: "N4"}, only("E3", "pubsub", "PayloadEmitter"), {Rule: "T1"}, {Rule: "T4"}, only("N1", "directchannel"), except("G7", "replicator"), {Rule: "T6"}}, Controls: []string{"N4", "N2", "T1", "T6"},
+		Explanation: "Allocation sizes decoded from a stream are bounded on both sides before use (N2, N1 on the frame-length conversion); every pointer decoded from a message or fetched entry (heads elements, GetIdentity() results, announced clocks) is nil-tested as a pointer before dereference, including through interface boxing (N4); the payload emitter's value type matches (E3); received entries cannot alter a log except by content address (T1). A received entry is re-encoded only after its clock and identity signatures were found present (N4d, DF8); only accepted heads reach the replicator (T4); frame slots are released on every path (G7). Clocks and identities of received heads are guarded wherever the heads flow, including helpers and access controllers (N4 e/f over T1's taint set); nothing is recorded about a head under its claimed hash before that hash was verified (T6).",
 		NotDecided:  "panics inside dependencies (JSON/CBOR decoders, libp2p)."},
-	"C13": {ID: "C13", Rules: []ruleRef{only("N1", "basestore"), {Rule: "N3"}, only("X3", "basestore"), only("P2", "snapshot", "queue")}, Controls: []string{"N3"},
-		Explanation: "Both 16-bit length prefixes of the snapshot writer are guarded by a range test (N1); make-then-fill loops allocate with the length of the collection they range over (N3: GetQueue); writer and loader use the same prefix width and byte order (X3); the snapshot and queue keys are written and read under the same names (P2).",
+	"C13": {ID: "C13", Rules: []ruleRef{only("N1", "basestore"), {Rule: "N3"}, only("X3", "basestore"), only("P2", "snapshot", "queue"), {Rule: "X5"}, {Rule: "X6"}}, Controls: []string{"N3", "X6", "X5"},
+		Explanation: "Both 16-bit length prefixes of the snapshot writer are guarded by a range test (N1); make-then-fill loops allocate with the length of the collection they range over (N3: GetQueue); writer and loader use the same prefix width and byte order (X3); the snapshot and queue keys are written and read under the same names (P2). The header's Len()/Heads() are read before the entries that are serialised (X5); frame buffers are filled by a full read — io.ReadFull or the UnixFS file's own Read, DF10 (X6).",
 		NotDecided:  "round-trip equality of the decoded log."},
-	"C14": {ID: "C14", Rules: []ruleRef{{Rule: "M1"}, {Rule: "M2"}, {Rule: "M3"}, {Rule: "M4"}, {Rule: "M5"}, only("A4", "baseorbitdb")},
-		Explanation: "No clock, randomness, process identity or map-iteration order flows into what is written on the address-determination cone (M1); the address prefix constant agrees between printing and parsing (M2); the local-presence test dominates the marker write in Create and store creation in Open, and its outcome can refuse (M3); controller and store type come from the manifest (A4 iii). The ipfs controller's Load assigns the decoded list on every successful path and the decoded manifest takes nothing from the opener (M4); address values are only built by the parser (M5).",
+	"C14": {ID: "C14", Rules: []ruleRef{{Rule: "M1"}, {Rule: "M2"}, {Rule: "M3"}, {Rule: "M4"}, {Rule: "M5"}, {Rule: "M6"}, only("A4", "baseorbitdb")}, Controls: []string{"M6"},
+		Explanation: "No clock, randomness, process identity or map-iteration order flows into what is written on the address-determination cone (M1); the address prefix constant agrees between printing and parsing (M2); the local-presence test dominates the marker write in Create and store creation in Open, and its outcome can refuse (M3); controller and store type come from the manifest (A4 iii). The ipfs controller's Load assigns the decoded list on every successful path and the decoded manifest takes nothing from the opener (M4); address values are only built by the parser (M5). An address built by joining the manifest hash with the caller's name is only returned where its parsed root equals the manifest hash (M6); the manifest's access-controller address is put in place on every path to the store creation (A4).",
 		NotDecided:  "injectivity and equality of content addresses; string round trip."},
 	"C15": {ID: "C15", Rules: rr("J1"), Controls: []string{"J1"},
 		Explanation: "At every merge site the size handed to Join is the constant -1 or is, on every path, positive and bounded by the receiving log's length (J1); DF1 (Join slices values[len-size:] unguarded) is re-derived from the dependency.",
 		NotDecided:  "which entries survive trimming (that they are the most recent)."},
-	"C16": {ID: "C16", Rules: []ruleRef{{Rule: "E1"}, {Rule: "E2"}, except("E3", "accesscontroller"), {Rule: "E4"}, {Rule: "E5"}}, Controls: []string{"E1"},
-		Explanation: "View refresh and head persistence dominate EventWrite/EventReplicated (E1); every acknowledged write emits exactly one EventWrite carrying the appended entry (E2); each emitter is only given values of the type it was created for (E3); the legacy emitter is on the store's bus on every initialiser path (E4); sends on a legacy subscriber's delivery channel are in one goroutine or all under the queue lock (E5).",
+	"C16": {ID: "C16", Rules: []ruleRef{{Rule: "E1"}, {Rule: "E2"}, except("E3", "accesscontroller"), {Rule: "E4"}, {Rule: "E5"}, {Rule: "E6"}}, Controls: []string{"E1", "E6"},
+		Explanation: "View refresh and head persistence dominate EventWrite/EventReplicated (E1); every acknowledged write emits exactly one EventWrite carrying the appended entry (E2); each emitter is only given values of the type it was created for (E3); the legacy emitter is on the store's bus on every initialiser path (E4); sends on a legacy subscriber's delivery channel are in one goroutine or all under the queue lock (E5). A try-send used as a wake-up goes to a channel with capacity (E6).",
 		NotDecided:  "the bus's own FIFO/back-pressure semantics (dependency)."},
 	"C17": {ID: "C17", Rules: []ruleRef{{Rule: "P3"}, only("I4", "Append")}, Controls: []string{"P3"},
 		Explanation: "The value persisted as local head is produced (Append) and written (Put) inside one exclusive critical section that is not released in between (P3). Every acknowledged write has refreshed the view (I4 on the write path).",
